@@ -94,7 +94,7 @@ func widthOf(t types.Type) (string, bool) {
 		w, _ := widthOf(u.Elem())
 		return fmt.Sprintf("[%d]%s", u.Len(), w), true
 	}
-	return types.TypeString(t, nil), false
+	return tstr(t, nil), false
 }
 
 // extractFmt builds the token tree of a WriteTo / ReadFrom declaration.
@@ -108,7 +108,7 @@ func extractFmt(w *World, decl *ast.FuncDecl, writer bool) *fmtSide {
 	// io param: the first parameter whose type is io.Writer / io.Reader (the hybrid writer has four)
 	for _, f := range decl.Type.Params.List {
 		for _, n := range f.Names {
-			ts := types.TypeString(info.TypeOf(f.Type), nil)
+			ts := tstr(info.TypeOf(f.Type), nil)
 			if (writer && ts == "io.Writer") || (!writer && ts == "io.Reader") {
 				if s.IOParam == nil {
 					s.IOParam = info.Defs[n]
@@ -589,7 +589,7 @@ func (s *fmtSide) call(c *ast.CallExpr) []*fTok {
 	if sel, ok := c.Fun.(*ast.SelectorExpr); ok {
 		// w.Write(x) on an io.Writer value (the hybrid writer has several)
 		if s.Writer && sel.Sel.Name == "Write" && len(c.Args) == 1 {
-			if ts := types.TypeString(info.TypeOf(sel.X), nil); ts == "io.Writer" {
+			if ts := tstr(info.TypeOf(sel.X), nil); ts == "io.Writer" {
 				s.Calls = append(s.Calls, c)
 				arg := c.Args[0]
 				t := &fTok{Kind: "RAW", Arg: exprStr(arg), Pos: c.Pos()}
